@@ -205,6 +205,7 @@ static void run(void)
 	world_start(transport ? QB_IPC_SOCKET : QB_IPC_SHM, &h, 0);
 	W_server_turn = server_turn;
 	W_server_co = vp_co_spawn(server_main, NULL, "server");
+	w_adopt_main_fds(W_server_co);        /* the service was set up in the main context: those descriptors are the server's */
 	vp_co_spawn(client_main, NULL, "client");
 	if (vp_co_run()) { vp_pruned(); return; }
 	vp_outcome_u64((uint64_t)rqt * 1000000 + (uint64_t)rst * 1000 + (uint64_t)evt);
